@@ -740,6 +740,19 @@ func (r *cRun) received(g int, chunk base.LogChunk, lastID *string) {
 			r.note("C04", "corrupt-forwarded", "consumer received the zero-length file %s as a chunk (%d bytes)", chunk.ID, len(chunk.Data))
 			return
 		}
+		if r.profile == "disk" || r.profile == "enum" {
+			// something that is not a chunk file of this queue was recovered and forwarded (e.g. what a crash left behind)
+			what := "matches no produced chunk"
+			for _, c := range r.order {
+				if len(chunk.Data) < len(c.data) && bytes.Equal(chunk.Data, c.data[:len(chunk.Data)]) {
+					what = fmt.Sprintf("the first %d of the %d bytes of chunk %d", len(chunk.Data), len(c.data), c.num)
+				} else if bytes.Equal(chunk.Data, c.data) {
+					what = fmt.Sprintf("a copy of chunk %d under another name", c.num)
+				}
+			}
+			r.note("C04", "unknown-chunk-forwarded", "consumer received %q (%d bytes), which is no chunk that was produced: %s", chunk.ID, len(chunk.Data), what)
+			return
+		}
 		r.note("C03", "phantom", "consumer received unknown chunk %s", chunk.ID)
 		return
 	}
